@@ -8,6 +8,7 @@ import Spade.Extra
 import Spade.Algo.Locate
 import Spade.Algo.Insert
 import Spade.Algo.LineIter
+import Spade.Algo.Remove
 namespace Spade
 
 def scale1074N : Nat := 2 ^ 1074
@@ -489,6 +490,28 @@ def judgeExtra2 (hNew hOld : HCtx) (op res : Array String) (dump : Option St) : 
                 (fun _ => s!"p={p} hint={hint} nv={s.nV} nf={s.nF}"))
           | none => (hNew, [⟨"C02:model", "insert-model-failed", s!"p={p} hint={hint}"⟩])
       | _, _, _ => (hNew, [])
+    else (hNew, [])
+  | "rm" | "trm" | "lrm" =>
+    -- R3: the removal model (`remove_core` and the DCEL operations under it) must reproduce the
+    -- implementation's arrays index for index.  Plain Delaunay triangulations, every family (the
+    -- removal path only uses the exact predicates).
+    if hOld.kind == "dt" && r0 == "ok" then
+      let v? : Option Nat :=
+        if name == "lrm" then
+          match parsePt (op.getD 1 "") (op.getD 2 "") with
+          | some p => (List.range s.nV).find? fun i => s.P i == p
+          | none => none
+        else parseNat (op.getD 1 "")
+      match v?, dump with
+      | some v, some d =>
+        if v < s.nV then
+          match s.removeM v with
+          | some m =>
+            (hNew, chk (St.sameStructure m d) "C11:model,C05:model" "remove-model-differs"
+              (fun _ => s!"v={v} nv={s.nV} nf={s.nF} ne={s.nE}"))
+          | none => (hNew, [⟨"C11:model", "remove-model-failed", s!"v={v} nv={s.nV}"⟩])
+        else (hNew, [])
+      | _, _ => (hNew, [])
     else (hNew, [])
   | "line" | "lineh" =>
     -- R3: the model of the line iterator, started at the implementation's first item (an
